@@ -146,6 +146,15 @@ func c07Specs() map[string]*c07Spec {
 		{Name: "b", Cmds: []C{{Defer: true, Call: &Ref{Task: "x"}}, P()}},
 		{Name: "x", Cmds: []C{P()}},
 	}}, pairs: [][2]string{{"a", "b"}}}
+	// two of three deps are parked on a shared run-once task (their slots handed back): the third,
+	// independent dep is not held up by them
+	m["two-deps-parked-on-shared-third-independent"] = &c07Spec{pg: &Prog{Tasks: []*T{
+		{Name: "root", Deps: []Ref{D("a"), D("b"), D("c")}, Cmds: []C{P()}},
+		{Name: "a", Deps: []Ref{DS("gate", "=")}, Cmds: []C{P()}},
+		{Name: "b", Deps: []Ref{DS("gate", "=")}, Cmds: []C{P()}},
+		{Name: "c", Cmds: []C{P()}},
+		{Name: "gate", Run: "once", Cmds: []C{P()}},
+	}}, pairs: [][2]string{{"c", "gate"}}}
 	m["parallel-roots"] = &c07Spec{pg: &Prog{Tasks: []*T{
 		{Name: "root", Deps: []Ref{DS("s", "=")}, Cmds: []C{P()}},
 		{Name: "r2", Deps: []Ref{DS("s", "=")}, Cmds: []C{P()}},
@@ -227,6 +236,24 @@ func c07Units(tier string) []*Unit {
 			{Name: "ping", RawLines: []string{"watch: true"}, Cmds: []C{{Call: &Ref{Task: "pong", VP: "@"}}}},
 			{Name: "pong", RawLines: []string{"watch: true"}, Cmds: []C{{Call: &Ref{Task: "ping", VP: "@"}}}}}},
 		"cycle-2-calls": {Tasks: []*T{{Name: "root", Cmds: []C{{Call: &Ref{Task: "a", VP: "@"}}}}, {Name: "a", Cmds: []C{{Call: &Ref{Task: "root", VP: "@"}}}}}},
+	}
+	// a cycle through a wildcard task whose match changes on every round
+	for _, n := range []int{0, 1} {
+		files := map[string]string{"Taskfile.yml": "version: '3'\ntasks:\n  root:\n    cmds:\n      - task: step-a\n  step-*:\n    cmds:\n      - task: 'step-{{index .MATCH 0}}x'\n"}
+		sc := &vlab.Scenario{Name: "cycle-wildcard-growing-match/N" + concName(n), Files: files, Opts: vlab.Options{Concurrency: n}, Calls: []vlab.CallSpec{{Task: "root"}}}
+		us = append(us, &Unit{Name: sc.Name, Sc: sc, Bound: 0, Prune: false, Weight: 1, Check: func(x *vlab.Exec) []vlab.Violation {
+			out := generic("C07", x)
+			if x.Res.Deadlock {
+				return append(out, vlab.V("C07", "deadlock", "cycle", fmt.Sprintf("cyclic reference deadlocked: %v", x.Res.Blocked)))
+			}
+			if x.Res.Horizon {
+				return append(out, vlab.V("C07", "no_termination_within_horizon", "cycle", "cyclic reference did not end within the step horizon"))
+			}
+			if x.Code != 204 && x.Code != 201 {
+				out = append(out, vlab.V("C07", "cycle_status", fmt.Sprintf("got%d", x.Code), fmt.Sprintf("cyclic reference ended with status %d (%s), expected 204 or 201", x.Code, firstN(x.ErrStr, 120))))
+			}
+			return out
+		}})
 	}
 	var cn []string
 	for k := range cyc {
